@@ -73,6 +73,8 @@ type scionHdr struct {
 	srcIA, dstIA     addr.IA
 	srcHost, dstHost netip.Addr
 	srcPort, dstPort uint16
+	srcRaw, dstRaw   []byte // != nil: the host address bytes as they go into the header, with srcType / dstType
+	srcType, dstType slayers.AddrType
 	flow             uint32
 	tc               uint8
 	e2e              bool // an end-to-end extension (possibly without options)
@@ -105,6 +107,12 @@ func buildSCION(h scionHdr, payload []byte) []byte {
 	}
 	if err := scn.SetDstAddr(addr.HostIP(h.dstHost)); err != nil {
 		panic(err)
+	}
+	if h.srcRaw != nil {
+		scn.RawSrcAddr, scn.SrcAddrType = h.srcRaw, h.srcType
+	}
+	if h.dstRaw != nil {
+		scn.RawDstAddr, scn.DstAddrType = h.dstRaw, h.dstType
 	}
 	so := gopacket.SerializeOptions{ComputeChecksums: true, FixLengths: true}
 	var u slayers.UDP
@@ -471,6 +479,58 @@ func applyVariant(h *scionHdr, v int, p2 int64, arrival time.Time, idx int) {
 	}
 }
 
+// hostForm: forms of a host address in the SCION header that resemble the IPv4 address a
+// (kind 36; p1 = form, +10: the destination host instead of the source host).  same: the
+// form denotes the host a itself.
+const nHostForms = 10
+
+func hostForm(form int, a, other netip.Addr, p2 int64) (raw []byte, typ slayers.AddrType, same bool) {
+	a4, o4 := a.As4(), other.As4()
+	r := lib.NewRng(uint64(p2)*31 + uint64(form))
+	v6 := func(prefix []byte, tail [4]byte) []byte {
+		b := make([]byte, 16)
+		copy(b, prefix)
+		copy(b[12:], tail[:])
+		return b
+	}
+	mapped := []byte{0, 0, 0, 0, 0, 0, 0, 0, 0, 0, 0xff, 0xff}
+	switch form {
+	case 0: // an IPv6 host whose last four bytes are those of a
+		return v6([]byte{0x20, 0x01, 0x0d, 0xb8}, a4), slayers.T16Ip, false
+	case 1: // the IPv4-mapped form of a: the same host
+		return v6(mapped, a4), slayers.T16Ip, true
+	case 2: // the IPv4-mapped form of another host
+		return v6(mapped, o4), slayers.T16Ip, false
+	case 3: // an IPv6 host whose first four bytes are those of a
+		b := make([]byte, 16)
+		copy(b, a4[:])
+		if p2&1 == 1 {
+			copy(b[4:], r.Bytes(12))
+		}
+		return b, slayers.T16Ip, false
+	case 4: // IPv4-compatible ::a.b.c.d (no ffff)
+		return v6(nil, a4), slayers.T16Ip, false
+	case 5: // one bit of the mapped prefix off
+		m := append([]byte(nil), mapped...)
+		m[int(uint64(p2>>3)%12)] ^= 1 << uint(p2%8)
+		return v6(m, a4), slayers.T16Ip, false
+	case 6: // a random IPv6 host
+		b := r.Bytes(16)
+		b[0] = 0x20
+		return b, slayers.T16Ip, false
+	case 7: // a service address (control service, wildcard / multicast)
+		return []byte{0, 2, byte(p2 & 1), 0}, slayers.T4Svc, false
+	case 8: // 4 bytes of a with one bit flipped
+		b := append([]byte(nil), a4[:]...)
+		b[int(uint64(p2>>3)%4)] ^= 1 << uint(p2%8)
+		return b, slayers.T4Ip, false
+	default: // the IPv4-mapped form of a with the last byte changed
+		t := a4
+		t[3] ^= byte(1 + p2%255)
+		return v6(mapped, t), slayers.T16Ip, false
+	}
+}
+
 func wrapped(v int, inner recipe) recipe {
 	return recipe{kind: 40 + v, p1: int64(inner.kind) + 100*inner.p1, p2: inner.p2}
 }
@@ -492,6 +552,22 @@ func (w *worker) scionDatagram(rc recipe, rq *reqRec, idx int, good scionHdr) (d
 		inner = recipe{kind: int(rc.p1 % 2), p2: rc.p2}
 	case rc.kind == 33:
 		return lib.NewRng(uint64(rc.p2) + 99).Bytes(int(rc.p1)), false, inner
+	case rc.kind == 36:
+		host := h.srcHost
+		if rc.p1 >= 10 {
+			host = h.dstHost
+		}
+		raw, typ, same := hostForm(int(rc.p1%10), host, w.addrB, rc.p2)
+		if rc.p1 >= 10 {
+			h.dstRaw, h.dstType = raw, typ
+		} else {
+			h.srcRaw, h.srcType = raw, typ
+		}
+		fs = same
+		inner = recipe{kind: 0, p2: rc.p2}
+		if rc.p2%4 == 3 {
+			inner.kind = 1
+		}
 	case rc.kind >= 40 && rc.kind < 40+nVariants:
 		inner = recipe{kind: int(rc.p1 % 100), p1: rc.p1 / 100, p2: rc.p2}
 		applyVariant(&h, rc.kind-40, rc.p2, rq.arrival, idx)
@@ -623,6 +699,9 @@ func genScriptSCION(r *lib.Rng, nts bool) []recipe {
 			switch r.Intn(5) {
 			case 0:
 				s[i] = recipe{kind: 30 + r.Intn(3), p1: int64(r.Intn(2)), p2: int64(r.Intn(1 << 16))}
+			case 2:
+				// host addresses that resemble the queried server's (the client's) without being it
+				s[i] = recipe{kind: 36, p1: int64(r.Intn(nHostForms) + 10*lib.Pick(r, 0, 0, 1)), p2: int64(r.Intn(1 << 16))}
 			case 1:
 				if r.Bool() {
 					s[i] = recipe{kind: 33, p1: lib.Pick(r, int64(0), 1, 20, 36, 60, 100), p2: int64(r.Intn(1 << 16))}
